@@ -128,7 +128,7 @@ class HTTPProtocol(BaseGopherProtocol):
         retstr += self.getimgtag(entry)
         retstr += "</TD>\n<TD>&nbsp;"
         if entry.gettype() != "i" and entry.gettype() != "7":
-            retstr += '<A HREF="%s">' % url
+            retstr += '<A HREF="%s">' % html.escape(url)
         retstr += "<TT>"
         if entry.getname() is not None:
             retstr += html.escape(entry.getname())
@@ -138,7 +138,7 @@ class HTTPProtocol(BaseGopherProtocol):
         if entry.gettype() != "i" and entry.gettype() != "7":
             retstr += "</A>"
         if entry.gettype() == "7":
-            retstr += '<BR><FORM METHOD="GET" ACTION="%s">' % url
+            retstr += '<BR><FORM METHOD="GET" ACTION="%s">' % html.escape(url)
             retstr += '<INPUT TYPE="text" NAME="searchrequest" SIZE="30">'
             retstr += '<INPUT TYPE="submit" NAME="Submit" VALUE="Submit">'
             retstr += "</FORM>"
